@@ -3,6 +3,7 @@ package rules
 import (
 	"fmt"
 	"go/ast"
+	"go/token"
 	"go/types"
 	"strings"
 
@@ -124,6 +125,15 @@ func ruleNoUncancellableBlock() check.Rule {
 						// a subscription that is handed to a composite must be handed over before it is awaited
 						if wn := resNode(b.Pkg.TypesInfo, b.Recv, b.Expr); wn != "" && b.Node != nil {
 							fn := innermostFunc(m, b.Pkg, b.Node)
+							registeredAtAll := false
+							for _, op := range sc.SubOps {
+								if op.Method == "AddUnsubscribable" && op.Call != nil && innermostFunc(m, op.Pkg, op.Call) == fn && resNode(op.Pkg.TypesInfo, op.Arg, op.ArgExpr) == wn {
+									registeredAtAll = true
+								}
+							}
+							if !registeredAtAll && strings.HasPrefix(wn, "site#") {
+								c.Report(armed, fmt.Sprintf("%s/%s/registered-before-wait#%d", sc, model.CtxKey(b.Ctx, b.Slot), cnt["wait"]), b.Pos, "the awaited subscription is never handed to a composite subscription of the operator: while the wait lasts the operator's teardown (returned only afterwards) cannot reach it, and nothing else can unsubscribe this source")
+							}
 							for _, op := range sc.SubOps {
 								if op.Method != "AddUnsubscribable" || op.Call == nil || innermostFunc(m, op.Pkg, op.Call) != fn {
 									continue
@@ -227,6 +237,87 @@ func ruleCtxWatch() check.Rule {
 	}
 }
 
+// CTX-DONE-TERMINATES: watching the context is not enough; the cancellation must end the output.
+func ruleCtxDoneTerminates() check.Rule {
+	return check.Rule{
+		Name: "CTX-DONE-TERMINATES",
+		Doc:  "in every subscribe closure, every select case that receives from the Done channel of a context sends a terminal notification to the destination on every path through the case (or the enclosing function has a deferred one, or the case hands a notification to a queue): a cancellation that is noticed but not reported leaves the output open",
+		Run: func(c *check.Ctx) {
+			m := c.M
+			n := 0
+			for _, sc := range m.SCs {
+				armed := c.Armed(sc)
+				info := sc.Pkg.TypesInfo
+				term := map[ast.Node]bool{}
+				deferredIn := map[ast.Node]bool{}
+				for _, e := range sc.Emits {
+					if e.ToDest && e.Kind != model.EmitNext {
+						term[e.Node] = true
+						for _, call := range e.Stack {
+							term[call] = true
+						}
+						if e.Deferred {
+							deferredIn[innermostFunc(m, e.Pkg, e.Node)] = true
+						}
+					}
+				}
+				cnt := 0
+				ast.Inspect(sc.Lit.Body, func(x ast.Node) bool {
+					cc, ok := x.(*ast.CommClause)
+					if !ok || cc.Comm == nil {
+						return true
+					}
+					var recv ast.Expr
+					switch st := cc.Comm.(type) {
+					case *ast.ExprStmt:
+						if u, ok := ast.Unparen(st.X).(*ast.UnaryExpr); ok && u.Op == token.ARROW {
+							recv = u.X
+						}
+					case *ast.AssignStmt:
+						if len(st.Rhs) == 1 {
+							if u, ok := ast.Unparen(st.Rhs[0]).(*ast.UnaryExpr); ok && u.Op == token.ARROW {
+								recv = u.X
+							}
+						}
+					}
+					if recv == nil {
+						return true
+					}
+					if _, isDone := isCtxDone(info, recv); !isDone {
+						return true
+					}
+					cnt++
+					n++
+					key := fmt.Sprintf("%s/ctx-done-case#%d", sc, cnt)
+					fn := innermostFunc(m, sc.Pkg, cc)
+					pass := deferredIn[fn] || everyPathPasses(&ast.BlockStmt{Lbrace: cc.Colon, List: cc.Body, Rbrace: cc.End()}, func(nd ast.Node) bool {
+						found := false
+						ast.Inspect(nd, func(y ast.Node) bool {
+							if term[y] {
+								found = true
+							}
+							if _, isSend := y.(*ast.SendStmt); isSend {
+								found = true
+							}
+							return !found
+						})
+						return found
+					})
+					if pass {
+						if armed {
+							c.OK(key, cc.Pos(), "the cancellation case ends the output on every path")
+						}
+					} else {
+						c.Report(armed, key, cc.Pos(), "the context's Done case can be left without a terminal notification to the destination: the cancellation is noticed but the output stays open")
+					}
+					return true
+				})
+			}
+			c.Inc("ctx_done_cases", n)
+		},
+	}
+}
+
 const controlsC14 = `
 func verifControlBlockingWait[T any]() func(Observable[T]) Observable[T] {
 	return func(source Observable[T]) Observable[T] {
@@ -246,7 +337,7 @@ func C14() *check.Property {
 		Title:    "Downstream termination cancels upstream without waiting for it",
 		Patterns: cat(CorePatterns, PluginPkgs, []string{PromPkg}, RatePkgs),
 		Scope:    []string{ro},
-		Rules:    []check.Rule{ruleNoUncancellableBlock(), ruleCtxWatch(), ruleRetryCtx(), ruleRelease(), ruleSelfUnsubscribe(), ruleAddTeardown(), ruleFinalizerDiscipline(), ruleNoEmitUnderTeardownLock()},
+		Rules:    []check.Rule{ruleNoUncancellableBlock(), ruleCtxWatch(), ruleCtxDoneTerminates(), ruleRetryCtx(), ruleRelease(), ruleSelfUnsubscribe(), ruleAddTeardown(), ruleFinalizerDiscipline(), ruleNoEmitUnderTeardownLock()},
 		Explanation: "Static argument: upstream release is the teardown chain (RELEASE, SELF-UNSUBSCRIBE, ADD-TEARDOWN — the positive half, shared with C03), and an operator's teardown exists only once its subscribe function has returned. " +
 			"NO-UNCANCELLABLE-BLOCK therefore lists every unbounded wait that executes before the subscribe closure returns (Wait, Collect, range over a channel, select without a timer case — located through the model's contexts, " +
 			"including waits in upstream slots that run inside the closure) and accepts it only when the waited-on object is released by something registered on the destination itself. CTX-WATCH checks the context case of the context-aware sources.",
